@@ -1,7 +1,7 @@
 (* Proofs/SimOwn.v — ownership of the record (C01, C10 safety, C13 claim, C09 finality):
    local rules of Proto.v imply the global monitor clauses of Mon.v, for every admitted trace. *)
 From RecordUpdate Require Import RecordUpdate.
-From LE Require Import Base Ev World Mon Proto GenGuards SimBasics.
+From LE Require Import Base Ev Consts World Mon Proto GenGuards SimBasics.
 Open Scope Z_scope.
 
 Lemma mwhen_in c a x : In x (Mon.when c a) -> c = true /\ x = a.
@@ -465,7 +465,8 @@ Proof.
     unfold v. rewrite Hk in G3 |- *. change (kGet =? kGet) with true in G3 |- *. cbn [negb orb] in G3. apply Z.eqb_eq in G3. subst v'.
     exact (J7 op p rev val t' Hop Hk Ea). }
   destruct ((p_kind p =? kUpdate) && (p_inner p =? sHeartbeat) && (rk =? oOk) && io_flag (inst_of b1 i)
-            && (v_stok (vinfo_of b1 (p_val p)) =? io_tok (inst_of b1 i)))%bool; [|exact I1].
+            && (v_stok (vinfo_of b1 (p_val p)) =? io_tok (inst_of b1 i))
+            && (t - p_t p <? hb_update_timeout (ic_H (cfg_of b1 i))))%bool; [|exact I1].
   (* only the instance's views change *)
   apply (Inv_frame b1); [unfold same_store, upd_inst, set_inst; cbn; intuition| |exact I1].
   intros j. rewrite inst_of_upd. destruct (i =? j); [cbn|]; apply (inv_stopped _ I1).
@@ -558,7 +559,7 @@ Proof.
   - (* EDemote *)
     cbn [bapply]. apply Inv_upd; auto. cbn. apply (inv_stopped _ I).
   - (* EApi *)
-    cbn [bapply]. destruct ((call =? aStop) || (call =? aStopCtx))%bool; [|apply Inv_now; exact I].
+    cbn [bapply]. destruct ((call =? aStop) || (call =? aStopCtx) || (call =? 8))%bool; [|apply Inv_now; exact I].
     apply Inv_upd; auto. cbn. apply (inv_stopped _ I).
   - (* EApiRet *)
     cbn [bapply]. cbn in G. apply pwhen_nil in G.
